@@ -37,13 +37,14 @@ type GenOpts struct {
 	SliceSvc         bool // services whose own type is the unnamed slice type []I0 (plain or named), next to groups over I0
 	Ghosts           bool // registrations that are added and removed again while the collection is assembled
 	GroupBridge      bool // a consumer -> group -> member -> chain of singletons family whose only ordering path runs through the group
+	SameOuts         bool // a multi-return constructor that hands back one instance under two declared types
 	SigTwins         bool // a second registration with the very signature of another one (shared analysis), other lifetime, other group/name
 	PreBuild         bool // the collection is built (and the provider used and closed) once before all registrations are in
 }
 
 func FullOpts() GenOpts {
 	return GenOpts{MinRegs: 1, MaxRegs: 9, Multi: true, Out: true, OutGroupFields: true, Instance: true, Void: true, As: true, MultiAs: true,
-		Groups: true, Keys: true, MultiGroup: true, OptionalMissing: true, Builtins: true, Err: true, Iface: true, MaxDeps: 3, NilOuts: true, AltImpl: true, Drops: true, PreBuild: true, NamedVoid: true, VoidAnyLife: true, EmbedIn: true, SliceSvc: true, Ghosts: true, SigTwins: true, GroupBridge: true}
+		Groups: true, Keys: true, MultiGroup: true, OptionalMissing: true, Builtins: true, Err: true, Iface: true, MaxDeps: 3, NilOuts: true, AltImpl: true, Drops: true, PreBuild: true, NamedVoid: true, VoidAnyLife: true, EmbedIn: true, SliceSvc: true, Ghosts: true, SigTwins: true, GroupBridge: true, SameOuts: true}
 }
 
 // NeverType is a concrete type id that generated configurations never provide.
@@ -342,6 +343,15 @@ func GenConfig(t *rapid.T, o GenOpts) *Config {
 					r.Outs = append(r.Outs, OutSpec{T: it, Impl: r.Outs[0].Impl, Nil: true})
 				}
 			}
+			if ok && o.SameOuts && len(r.Outs) < 3 && ConcreteTypes[r.Outs[0].Impl].Kind() == reflect.Pointer && rapid.IntRange(0, 4).Draw(t, "sameout") == 0 {
+				// one more output, interface-typed, for which the constructor hands back the very
+				// instance of its first output
+				it := NumConcrete + rapid.IntRange(0, NumIface-1).Draw(t, "sameT")
+				id := Ident{T: it, Group: group}
+				if (group == "" && !g.used[id]) || (group != "" && !g.closedGrp[groupKey{it, group}]) {
+					r.Outs = append(r.Outs, OutSpec{T: it, Impl: r.Outs[0].Impl, Same: true, SameAs: 0})
+				}
+			}
 			if ok && o.NilOuts && group == "" && rapid.IntRange(0, 4).Draw(t, "typednil") == 0 {
 				// a secondary pointer-typed output the constructor always leaves nil (a typed nil
 				// pointer whose type has methods - Close() among them for the D types)
@@ -381,11 +391,30 @@ func GenConfig(t *rapid.T, o GenOpts) *Config {
 				ok = false
 				break
 			}
+			if o.SameOuts && len(r.Outs) < 3 && !r.Outs[0].Nil && !IsSliceSvc(r.Outs[0].T) && ConcreteTypes[r.Outs[0].Impl].Kind() == reflect.Pointer && rapid.IntRange(0, 5).Draw(t, "samefield") == 0 {
+				// one more field, interface-typed, that the constructor fills with the very instance of its first field
+				it := NumConcrete + rapid.IntRange(0, NumIface-1).Draw(t, "samefieldT")
+				id := Ident{T: it}
+				if g.o.Keys {
+					id.Key = rapid.SampledFrom(keyPool).Draw(t, "samefieldKey")
+				}
+				if !g.used[id] && !seen[id] {
+					seen[id] = true
+					r.Outs = append(r.Outs, OutSpec{T: it, Impl: r.Outs[0].Impl, Key: id.Key, Same: true, SameAs: 0})
+				}
+			}
 			if o.NilOuts && len(r.Outs) >= 2 && rapid.IntRange(0, 3).Draw(t, "nilfield") == 0 {
 				// a field the constructor always leaves nil - not the last one, so that whatever
 				// godi derives from field positions has something to get wrong; nothing may depend on it
 				var cand []int
+				hasSame := false
+				for _, os := range r.Outs {
+					hasSame = hasSame || os.Same
+				}
 				for j, os := range r.Outs[:len(r.Outs)-1] {
+					if os.Same || (j == 0 && hasSame) {
+						continue
+					}
 					if os.Group == "" && (IsIface(os.T) || ConcreteTypes[os.Impl].Kind() == reflect.Pointer) {
 						cand = append(cand, j)
 					}
@@ -431,7 +460,11 @@ func GenConfig(t *rapid.T, o GenOpts) *Config {
 		if o.AltImpl && (r.Form == FormPlain || r.Form == FormOut) && len(r.As) == 0 {
 			for j := range r.Outs {
 				os := &r.Outs[j]
-				if !IsIface(os.T) || os.Nil || rapid.IntRange(0, 1).Draw(t, "alt") == 0 {
+				repeated := false // handed back a second time as another output: stays one pointer-typed implementation
+				for _, other := range r.Outs {
+					repeated = repeated || (other.Same && other.SameAs == j)
+				}
+				if !IsIface(os.T) || os.Nil || os.Same || repeated || rapid.IntRange(0, 1).Draw(t, "alt") == 0 {
 					continue
 				}
 				// the other implementation differs in whether it has a Close method
